@@ -677,6 +677,12 @@ def diff_ref_value(r, x, path, out, seed="ref"):
     if kx not in ("int", "float", "complex"):
         out.append((path, "kind:%s!=%s" % (r.k, kx), repr(r), show(x)))
         return
+    if isinstance(r, refnum.ApproxInt):
+        if kx != "int":
+            out.append((path, "numkind:i!=%s" % _KCH[kx], repr(r), show(x)))
+        elif abs(int(x) - r.v) > 2 * r.e:
+            out.append((path, "int-value", repr(r), show(x)))
+        return
     loose = isinstance(r, LooseV)
     if not loose and _KCH[kx] != r.k:
         out.append((path, "numkind:%s!=%s" % (r.k, _KCH[kx]), repr(r), show(x)))
